@@ -660,4 +660,36 @@ theorem tether_crop_consistent (t : Tether ℝ) (e : Pt ℝ × Pt ℝ) (he : t.e
 example : ∃ a b, ((Tether.new (1 : ℝ) 2 none).withTether ⟨0, 0⟩ ⟨3, 4⟩).endsProcessed = some (a, b) ∧ a.y = b.y ∧ a.x < b.x :=
   tether_horizontal 1 2 ⟨0, 0⟩ ⟨3, 4⟩ (Or.inl (by norm_num))
 
+/-- The pixel data follow the tether, in every colour channel: whatever the colour alignment of the channel
+    (`alignInv` arbitrary, `none` = not aligned), image content that the un-tethered image shows at the two chosen
+    points (`e` = the chosen points in full-image coordinates) is shown by the tethered, cropped image exactly at the
+    two tether ends it reports — which lie on a horizontal line of unchanged length and midpoint by the theorems above. -/
+theorem tether_maps_chosen_points (t : Tether ℝ) (e : Pt ℝ × Pt ℝ) (he : t.ends = some e)
+    (alignInv : Option (Aff ℝ)) (r₁ r₂ : Pt ℝ) (h₁ : shownAt alignInv r₁ = e.1) (h₂ : shownAt alignInv r₂ = e.2) :
+    t.endsProcessed = some (t.land alignInv r₁, t.land alignInv r₂) := by
+  simp only [Tether.endsProcessed, he, Option.map_some, Tether.land, frameMatrix_apply t e he, h₁, h₂]
+
+/-- Non-vacuity: a 3-4-5 tether on a window with origin (1, 2), channel shifted by (5, −7). -/
+example : ∃ a b, ((Tether.new (1 : ℝ) 2 none).withTether ⟨0, 0⟩ ⟨3, 4⟩).endsProcessed = some (a, b) ∧
+    a = ((Tether.new (1 : ℝ) 2 none).withTether ⟨0, 0⟩ ⟨3, 4⟩).land (some ⟨1, 0, 5, 0, 1, -7⟩) ⟨-4, 9⟩ :=
+  ⟨_, _, tether_maps_chosen_points _ (⟨0 + 1, 0 + 2⟩, ⟨3 + 1, 4 + 2⟩) rfl (some ⟨1, 0, 5, 0, 1, -7⟩) ⟨-4, 9⟩ ⟨-1, 13⟩
+    (by simp only [shownAt, Aff.apply]; congr 1 <;> norm_num) (by simp only [shownAt, Aff.apply]; congr 1 <;> norm_num), rfl⟩
+
+/-- The order of the product matters (seeded change C07d-m2): with the operands swapped — rotate the raw channel,
+    then align — a channel shifted by one pixel no longer shows the first chosen point of a vertical tether of length 2
+    at the tether end `(−1, 1)` but at `(0, 2)`. -/
+theorem align_then_rotate_order_matters :
+    ∃ (t : Tether ℝ) (e : Pt ℝ × Pt ℝ) (m : Aff ℝ) (r : Pt ℝ), t.ends = some e ∧ shownAt (some m) r = e.1 ∧
+      (t.frameMatrix (some m)).apply r = ⟨-1, 1⟩ ∧ (t.frameMatrixSwapped (some m)).apply r = ⟨0, 2⟩ := by
+  have hs : Real.sqrt ((0 - 0) * (0 - 0) + (2 - 0) * (2 - 0) : ℝ) = 2 := by
+    rw [show ((0 - 0) * (0 - 0) + (2 - 0) * (2 - 0) : ℝ) = 2 * 2 by norm_num]
+    exact Real.sqrt_mul_self (by norm_num)
+  have hl : tLen ((⟨0, 0⟩, ⟨0, 2⟩) : Pt ℝ × Pt ℝ) = 2 := hs
+  refine ⟨⟨0, 0, some (⟨0, 0⟩, ⟨0, 2⟩)⟩, (⟨0, 0⟩, ⟨0, 2⟩), ⟨1, 0, 1, 0, 1, 0⟩, ⟨-1, 0⟩, rfl, ?_, ?_, ?_⟩
+  · simp only [shownAt, Aff.apply]; congr 1 <;> norm_num
+  · simp only [Tether.frameMatrix, Tether.rotMatrix, Aff.mul, Aff.apply, rotAff, tCos, tSin, tCx, tCy, hl, two_real]
+    congr 1 <;> norm_num
+  · simp only [Tether.frameMatrixSwapped, Tether.rotMatrix, Aff.mul, Aff.apply, rotAff, tCos, tSin, tCx, tCy, hl, two_real]
+    congr 1 <;> norm_num
+
 end Verif.C07
